@@ -25,7 +25,7 @@ TAGS (C16 unless noted)
   pair-accept-only-valid, pair-reject-invalid   entries that are written are representable; Ok ==> every list is
         <P>_pair_list_ok (OffsetPair needs a base, StartEnd/StartLength conflict with one, empty ranges, StartLength whose
         end is not an address, DefaultLocation before v5)
-  pair-reads-as-range / pair-reads-as-base-select / pair-unambiguous   the pair written for an entry is classified by a
+  pair-reads-as-range:{offset-pair,start-end,start-length} / pair-reads-as-base-select / pair-unambiguous   the pair written for an entry is classified by a
         DWARF 2-4 consumer as what the entry is (never the terminator, the marker only for base selections).  FAILS: F-wlists-1
   start-length-end          the end word of StartLength is begin + length mathematically.                          FAILS: F-wlists-2
   counted-location, counted-location-too-large   length prefix == bytes Expression::write produced (2 bytes <= v4 /
@@ -35,8 +35,8 @@ TAGS (C16 unless noted)
         section is touched
   frame                     grew() on Ok and Err
 FINDINGS (exit 1 on the pinned tree; each reproduced natively, native/src/bin/f_wlists_<n>.rs; 8 obligations per pair writer)
-  F-wlists-1 (= DESIGN F9, extended)  write_ranges / write_loc, `assert(.._pair_reads_back(..))` [C16:pair-reads-as-range] in the
-      OffsetPair and StartEnd arms: a first word equal to the all-ones marker is emitted as it is.
+  F-wlists-1 (= DESIGN F9, extended)  write_ranges / write_loc, `assert(.._pair_reads_back(..))` [C16:pair-reads-as-range:offset-pair] and
+      [C16:pair-reads-as-range:start-end]: a first word equal to the all-ones marker is emitted as it is.
   F-wlists-2  write_ranges / write_loc StartLength arm: overflow obligations on `begin + length` and `addend + length as i64`
       (debug panic) and [C16:start-length-end] (`length as i64` wraps for length >= 2^63: wrong end, no panic).
   F-wlists-3  write_ranges / write_loc BaseAddress arm: three built-in obligations on `!0 >> (64 - address_size * 8)`:
@@ -451,13 +451,13 @@ def pair_writer(it, fn, loc):
              f'assert({P}_pair_reads_back({R}, {S}));{tag("pair-reads-as-base-select")}')
     ghost_at(it, f'w.write_udata(begin, {A})?;',
              f'assert(!{P}_pair_bad({R}, {HB}));{tag("pair-accept-only-valid")}\n'
-             f'assert({P}_pair_reads_back({R}, {S}));{tag("pair-reads-as-range")}')
+             f'assert({P}_pair_reads_back({R}, {S}));{tag("pair-reads-as-range:offset-pair")}')
     ghost_at(it, f'w.write_address(begin, {A})?;',
              f'assert(!{P}_pair_bad({R}, {HB}));{tag("pair-accept-only-valid")}\n'
-             f'assert({P}_pair_reads_back({R}, {S}));{tag("pair-reads-as-range")}', nth=0)
+             f'assert({P}_pair_reads_back({R}, {S}));{tag("pair-reads-as-range:start-end")}', nth=0)
     ghost_at(it, f'w.write_address(begin, {A})?;',
              f'assert(!{P}_pair_bad({R}, {HB}));{tag("pair-accept-only-valid")}\n'
-             f'assert({P}_pair_reads_back({R}, {S}));{tag("pair-reads-as-range")}', nth=1)
+             f'assert({P}_pair_reads_back({R}, {S}));{tag("pair-reads-as-range:start-length")}', nth=1)
     # ---- StartLength: the end word is begin + length (mathematically)
     ghost_at(it, 'if begin == end {', f'assert(addr_add_ok(begin, length) && end == addr_add(begin, length));{tag("start-length-end")}', nth=2)
     if loc:
@@ -547,8 +547,9 @@ def dispatcher(it, loc):
         return f', encoding, unit_offsets, old(sections).{sec}.0.wv().len' if loc else ''
     O0, O1 = f'old(sections).{old_s}.0.wv()', f'final(sections).{old_s}.0.wv()'
     N0, N1 = f'old(sections).{new_s}.0.wv()', f'final(sections).{new_s}.0.wv()'
+    # everything but the section that is written (and, for locations, ITS fixup vector) is left alone
     others = lambda keep: ' && '.join(f'final(sections).{f} == old(sections).{f}' for f in SECTION_FIELDS
-                                      if f not in keep and not (loc and f.endswith('_fixups')))
+                                      if f not in keep and not (loc and f in [k + '_fixups' for k in keep]))
     HB = 'have_base_address'
     it.splice('write', ret='res', ensures=[
         f'[C16:dispatch-empty] {N} == 0 ==> (res matches Ok(o) && o.offs().len() == 0) && {others([])} && {O1} == {O0} && {N1} == {N0}',
